@@ -40,6 +40,7 @@ type vFSModel struct {
 	ops     int
 	snaps   []*PersistedData
 	curSave int
+	concurrent bool
 	encTo   map[*jsoniter.Encoder]io.Writer
 	decFrom map[*jsoniter.Decoder]io.Reader
 }
@@ -76,6 +77,9 @@ func vComplete(n *vNode) (bool, int) {
 // invariant: checked after every file-system operation.
 func (fs *vFSModel) check(op string) {
 	fs.ops++
+	if fs.concurrent {
+		defer verifYield() // another saver (or a reader) may run between any two file-system operations
+	}
 	n, ok := fs.files["/data/data.json"]
 	if !ok {
 		return
@@ -237,11 +241,22 @@ func vEncode(e *jsoniter.Encoder, val interface{}) error {
 		return nil
 	}
 	data, ok := val.(*PersistedData)
-	verifAssert(ok && data == fs.snaps[fs.curSave], "C09.encodes-the-snapshot-passed-to-save")
+	snapIdx := fs.curSave
+	if fs.concurrent {
+		snapIdx = -1
+		for i, sn := range fs.snaps {
+			if sn == data {
+				snapIdx = i
+			}
+		}
+		verifAssert(ok && snapIdx >= 0, "C09.encodes-the-snapshot-passed-to-save")
+	} else {
+		verifAssert(ok && data == fs.snaps[fs.curSave], "C09.encodes-the-snapshot-passed-to-save")
+	}
 	chunks := verifInt("encoder.chunks")
 	verifAssume(chunks >= 1 && chunks <= verifBound("chunks", 2))
 	for k := 0; k < chunks; k++ {
-		if err := fs.writeChunk(f, vChunk{snap: fs.curSave, k: k, of: chunks}); err != nil {
+		if err := fs.writeChunk(f, vChunk{snap: snapIdx, k: k, of: chunks}); err != nil {
 			return err
 		}
 	}
@@ -311,6 +326,49 @@ func VerifC09Store() {
 		} else {
 			verifAssert(lerr == nil && got != nil && len(got.Jobs) == 0, "C09.failed-first-save-leaves-store-absent")
 		}
+	}
+	verifReach("end")
+}
+
+// VerifC09Concurrent: two Save calls that overlap in time (the final save of Shutdown can overlap a
+// save of the persist loop) interleave at every file-system operation; the published file must be a
+// complete snapshot at every instant, and once both have returned it holds one of the two snapshots.
+func VerifC09Concurrent() {
+	fs := &vFSModel{files: map[string]*vNode{}, handles: map[*os.File]*vHandle{}, encTo: map[*jsoniter.Encoder]io.Writer{}, decFrom: map[*jsoniter.Decoder]io.Reader{}}
+	vFS = fs
+	fs.concurrent = true
+	json = vAPI{}
+	verifIntercept("os.CreateTemp", vCreateTemp)
+	verifIntercept("(*os.File).Name", vFileName)
+	verifIntercept("(*os.File).Write", vFileWrite)
+	verifIntercept("(*os.File).Close", vFileClose)
+	verifIntercept("os.Rename", vRename)
+	verifIntercept("os.Open", vOpen)
+	verifIntercept("os.Create", vCreate)
+	verifIntercept("os.OpenFile", vOpenFile)
+	verifIntercept("os.WriteFile", vWriteFile)
+	verifIntercept("os.Remove", vRemove)
+	verifIntercept("(*os.File).Sync", func(f *os.File) error { return nil })
+	verifIntercept("(*github.com/json-iterator/go.Encoder).Encode", vEncode)
+	verifIntercept("(*github.com/json-iterator/go.Decoder).Decode", vDecode)
+	st := &JsonDataStore{path: "/data"}
+	d1 := &PersistedData{Jobs: make([]PersistedJob, 1)}
+	d2 := &PersistedData{Jobs: make([]PersistedJob, 2)}
+	fs.snaps = []*PersistedData{d1, d2}
+	fs.curSave = 1
+	verifGoMode(1)
+	done := 0
+	var e1, e2 error
+	verifGo(func() { e1 = st.Save(d1); done++ })
+	verifGo(func() { e2 = st.Save(d2); done++ })
+	verifBlockUntil(func() bool { return done == 2 })
+	if e1 == nil || e2 == nil {
+		got, lerr := st.Load()
+		verifAssert(lerr == nil && got != nil, "C09.load-after-successful-save")
+		if lerr == nil && got != nil {
+			verifAssert(len(got.Jobs) == 1 || len(got.Jobs) == 2, "C09.successful-save-is-what-load-returns")
+		}
+		verifReach("both-returned")
 	}
 	verifReach("end")
 }
